@@ -418,6 +418,14 @@ add("Par_US", P.ParallelUtilityEstimationWrapper,
     lambda s, ml=NAN: P.ParallelUtilityEstimationWrapper(P.UncertaintySampling(method="margin_sampling", missing_label=ml, random_state=s),
                                                          n_jobs=-1, parallel_dict={"backend": "threading"}, missing_label=ml, random_state=s),
     lambda c: dict(clf=_ctx_clf(c)), model_arg="clf", lazy=True)
+def _mixture_domain(case):
+    """A Gaussian mixture cannot be estimated from a handful of duplicated 48-dimensional binary rows (scikit-learn:
+    'ill-defined empirical covariance'): requirement of the third-party model."""
+    return "Gaussian mixture not estimable from duplicated high-dimensional binary rows" if case.data == "bow" else None
+
+
+for _n in ("FourDs", "FourDs_lmbda"):
+    POOL[_n].domain = _mixture_domain
 for _n in ("EpistemicUS_logreg", "US_margin_cost"):
     POOL[_n].no_cold = True            # the logistic regression model needs two observed classes
 for _n in ("Sub_US", "Sub_excl_RS", "Par_US"):
